@@ -53,7 +53,7 @@ class Spec:
         return 1600 if tier == "quick" else 16000
 
     def strategy(self, tier):
-        o = {"p_failflag": 50, "p_csum": 20, "keep_going": True, "max_cmd_targets": 3,
+        o = {"p_failflag": 50, "p_fail_direct": 30, "p_csum": 20, "keep_going": True, "max_cmd_targets": 3,
              "weights": {"cmd": 45, "failflag": 25, "edit": 12, "setdo": 4, "adddo": 1, "rmdo": 1, "rmtarget": 5,
                          "redo": 6, "mkpath": 2, "rmpath": 1, "ext": 1, "touch": 2}}
         if tier == "thorough":
